@@ -17,11 +17,12 @@ Cfgs ==
   CASE CfgSet = "one"   -> {[kinds |-> <<"direct">>, limit |-> l, size |-> 8, pay |-> "scalar", static |-> FALSE] : l \in {None, 0, 8, 20}}
     [] CfgSet = "two"   -> {[kinds |-> ks, limit |-> l, size |-> 8, pay |-> "scalar", static |-> FALSE] :
                               ks \in {<<"direct", "direct">>, <<"direct", "pass">>, <<"direct", "buffer">>,
-                                      <<"buffer", "pass">>, <<"pass", "shared">>, <<"dbuffer", "direct">>, <<"dbuffer", "buffer">>},
+                                      <<"buffer", "pass">>, <<"pass", "shared">>, <<"tpass", "shared">>, <<"dbuffer", "direct">>, <<"dbuffer", "buffer">>},
                               l \in {None, 0, 7, 8, 16}}
     [] CfgSet = "three" -> {[kinds |-> ks, limit |-> l, size |-> 8, pay |-> "scalar", static |-> FALSE] :
                               ks \in {<<"direct", "pass", "direct">>, <<"direct", "buffer", "pass">>,
-                                      <<"buffer", "buffer", "direct">>, <<"pass", "shared", "direct">>, <<"pass", "shared", "shared">>},
+                                      <<"buffer", "buffer", "direct">>, <<"pass", "shared", "direct">>, <<"pass", "shared", "shared">>,
+                                      <<"tpass", "shared", "direct">>},
                               l \in {None, 15}}
     [] CfgSet = "masked" -> {[kinds |-> ks, limit |-> l, size |-> 16, pay |-> py, static |-> FALSE] :
                               ks \in {<<"direct">>, <<"direct", "pass">>, <<"direct", "buffer">>},
